@@ -37,6 +37,7 @@ class Report:
         self.quiet = quiet
         self.functions = set()
         self.callsites = 0
+        self._seen = set()
 
     # ------------------------------------------------------------------
     def ob(self, clause, construct, ok, detail="", where="", witness=None, key=None, nontrivial=True):
@@ -54,6 +55,10 @@ class Report:
         }
         if witness is not None:
             rec["witness"] = witness
+        sig = (clause, construct, bool(ok), detail, where)
+        if sig in self._seen:
+            return bool(ok)
+        self._seen.add(sig)
         self.obligations.append(rec)
         if not ok:
             v = dict(rec)
